@@ -1,4 +1,5 @@
-"""Per-property registry read by ./check.  Adding a property = one entry here + Lean Props/Audit + a harness family + a driver handler."""
+"""Loads per-property entries from checks/reg/Cxx.py (each defines ENTRY). See tools/AGENT_GUIDE.md."""
+import os, importlib.util
 
 def fam(name, quick, thorough, driver=None, opts=None, env=None):
     d = {"family": name, "cases": {"quick": quick, "thorough": thorough}}
@@ -12,16 +13,12 @@ COMMON_TB = [
     "hand-written Lean model mirrors the Rust control flow (tie = behavioural correspondence on generated cases)",
 ]
 
-REGISTRY = {
-    "C42": {
-        "level": "proof",
-        "families": [fam("C42", 6000, 300000)],
-        "gen_items": [],
-        "rule": "cases: 40% rendered cpulists of random sets (random range grouping, order, duplicates, ASCII whitespace, '+', leading zeros), "
-                "40% junk token strings (overflowing numbers, reversed ranges, Unicode whitespace/digits), 20% workers_for points incl. 0 and usize::MAX; "
-                "non-trivial = cpulist whose output has >= 2 ids, or workers_for with work,pool >= 1; distinct by sha256 of the canonical case",
-        "trusted_base": COMMON_TB + ["modelled not verified: parse_cpulist loop (IQE.Engine.CpuList); Rust str::trim/split/split_once/parse::<usize> semantics as written in IQE.Core.Text"],
-        "assumptions": ["ranges whose upper end is huge are not generated (the real code would allocate without bound; outside this property)"],
-        "min_tags": {"rendered": 1, "junk": 1, "workers": 1},
-    },
-}
+REGISTRY = {}
+_d = os.path.join(os.path.dirname(os.path.abspath(__file__)), "reg")
+for _f in sorted(os.listdir(_d)):
+    if _f.endswith(".py") and _f[0] == "C":
+        _s = importlib.util.spec_from_file_location(_f[:-3], os.path.join(_d, _f))
+        _m = importlib.util.module_from_spec(_s)
+        _m.fam, _m.COMMON_TB = fam, COMMON_TB
+        _s.loader.exec_module(_m)
+        REGISTRY[_f[:-3]] = _m.ENTRY
